@@ -148,11 +148,18 @@ auto base(It const& it) -> decltype(it.base())
 {
     return it.base();
 }
+// the library's reverse_iterator over pointers as an iterator category of its own ("rev"): the driver
+// specialises is_rev and provides vh_mirror(p) (position p of the reversed view -> base pointer)
+template <typename It>
+struct is_rev : std::false_type { };
+
 template <typename It, typename T>
 It mk(T* p)
 {
     if constexpr (std::is_pointer_v<It>) {
         return p;
+    } else if constexpr (is_rev<It>::value) {
+        return It(vh_mirror(p));
     } else {
         return It(p);
     }
